@@ -87,6 +87,32 @@ def run(ctx):
                 ctx.violation('prior-contents', 'prior contents of the output containers influence the results', {'case': base[k], 'prefilled_case': [l for l in seq if vf.case_id(l) == 'E %d' % ids[2]][0]})
             if any(t and t[0] == 'SEED-MISMATCH' for t in trs[0]):
                 ctx.violation('seed', 'the report does not carry the seed supplied', {'case': base[k]})
+    # the caller's generator object handed to two consecutive, otherwise identical calls (VERIF_REUSE_GEN: the harness makes the
+    # second call itself and reports which outputs differ): the seed is the declared input, not the object's hidden engine state
+    n_reuse = 0
+    if res and ctx.bdir:
+        sub_lines = [l for l in base[:ctx.budget(60, 1500)]]
+        for i, l in enumerate(sub_lines):
+            t = l.split()
+            t[1] = str(900000 + i)
+            sub_lines[i] = ' '.join(t)
+        os.environ['VERIF_REUSE_GEN'] = '1'
+        try:
+            res2 = ctx.component('K-E2E(generator object reused)', sub_lines, model=False)
+        finally:
+            del os.environ['VERIF_REUSE_GEN']
+        if res2:
+            for l in sub_lines:
+                tr = res2['impl'].get(vf.case_id(l))
+                if tr is None:
+                    continue
+                for toks in tr:
+                    if toks and toks[0] == '@genreuse':
+                        n_reuse += 1
+                        if len(toks) > 1 and toks[1] == 'diff':
+                            ctx.violation('generator-reuse', 'two identical calls given the same generator object (same seed) return different ' + ' '.join(toks[2:]),
+                                          {'case': l, 'how': 'run the harness on this case with VERIF_REUSE_GEN=1'})
+    ctx.extra['generator_reuse_calls'] = n_reuse
     # lint: static / global state in the library headers
     lint = []
     for p in vf.walk(os.path.join(vf.REPO, 'include'), ('.hpp',)):
